@@ -785,6 +785,7 @@ pub fn snapshot_text(env: &mut Env<VS>) -> String {
                 body.open_file_description.borrow().serial(),
                 body.flags.contains(yash_env::system::FdFlag::CloseOnExec) as u8
             ));
+            lines.push(format!("fdnb:{}={}", fd.0, body.open_file_description.borrow().is_nonblocking() as u8));
         }
         // (virtual signal numbers go beyond 100; default dispositions are
         // left out, so an absent key means Default)
